@@ -252,6 +252,15 @@ def grep_gate():
     return bad
 
 
+def corr_kind(m):
+    """A model/implementation disagreement whose compared observable is the decision itself (returned truth value
+    or exception class) is a concrete failing input: the model's value is the one the theorems prove to be the
+    documented one.  Disagreements on internal state remain broken obligations."""
+    if isinstance(m, (tuple, list)) and len(m) and m[0] in ('ret', 'exc'):
+        return 'failing-input'
+    return 'broken-obligation'
+
+
 # ------------------------------------------------------------------ results
 def repo_state():
     try:
